@@ -714,7 +714,7 @@ func denseForms(r, c, salt int) []struct {
 }
 
 func genMatShape(g *vlib.G) {
-	dims := []int{1, 2, 3}
+	dims := vlib.Pick(g, []int{1, 2, 3}, []int{1, 2, 3, 5})
 	type binop struct {
 		name string
 		f    func(m *mat.Dense, a, b mat.Matrix)
